@@ -2,7 +2,7 @@
 import os
 
 from . import core
-from .rules import stdio
+from .rules import stdio, cert, mark, exact, optstore
 
 FIX = os.path.join(os.path.dirname(os.path.abspath(__file__)), "fixtures")
 
@@ -21,7 +21,29 @@ def fx_stdio():
              "fired on %s" % fired)]
 
 
+def fx_cert():
+    prog = core.build_fixture([os.path.join(FIX, "cert.c")])
+    out = []
+    for drv, want in (("drv_ok", 0), ("drv_skip_retest", 1), ("drv_wrong_vec", 1), ("drv_reset_rval", 2)):
+        cfg = {"driver": drv, "tests": {"opt_test": "OPT", "inf_test": "INF"}, "outputs": {"opt_out": "OPT", "inf_out": "INF"}}
+        try:
+            r = cert.run(prog, cfg=cfg, want=None)
+            n = len([v for v in r.violations if v.rule == "R-CERT"])
+        except core.AnalysisBroken as ex:
+            n = -1
+            drv = drv + " (" + str(ex) + ")"
+        # floors of the real driver do not apply to the tiny fixtures
+        out.append(("R-CERT on fixture %s: expected %d violating exit tuples" % (drv, want), n == want, "found %d" % n))
+    for fn, want in (("test_ok", 0), ("test_fallthrough", 1), ("test_no_reset", 1)):
+        r = mark.run(prog, tests={fn: {"marker_value": "QS_LP_OPTIMAL", "cache_fill": False, "min_fail_sites": 1}})
+        n = len(r.violations)
+        out.append(("R-MARK on fixture %s: expected %s" % (fn, "silence" if not want else "a report"), (n > 0) == bool(want), "found %d" % n))
+    return out
+
+
 FIXTURES = {
+    "C01": [fx_cert],
+    "C02": [fx_cert],
     "C20": [fx_stdio],
 }
 
@@ -38,7 +60,72 @@ def run_fixtures(pid):
 
 # ------------------------------------------------------------------ properties
 
+SOLN_ACCESSORS = ("_x_array", "_pi_array", "_rc_array", "_slack_array", "_objval", "_infeas_array",
+                  "named_x", "named_rc", "named_pi", "named_slack")
+
+
+def cert_scopes(prog, kind):
+    acc = sorted(f.name for f in prog.funcs.values() if f.name.startswith("mpq_QSget_") and not f.static
+                 and any(x in f.name for x in SOLN_ACCESSORS))
+    if kind == "OPT":
+        roots = ["QSexact_optimal_test", "optimal_output", "mpq_ILLlib_solution", "mpq_QSgrab_cache", "QSexact_print_sol"] + acc
+    else:
+        roots = ["QSexact_infeasible_test", "infeasible_output", "mpq_ILLsimplex_infcertificate", "mpq_QSget_infeas_array"]
+    return {"CERT": {"roots": roots, "closure": False}, "TESTS": {"roots": roots[:1], "closure": True}}
+
+
+def c01_rules():
+    return [
+        lambda prog, tier: cert.run(prog, want=("OPT",)),
+        lambda prog, tier: mark.run(prog, which=("QSexact_optimal_test",)),
+        lambda prog, tier: optstore.run(prog),
+        lambda prog, tier: exact.run(prog, cert_scopes(prog, "OPT")),
+    ]
+
+
+def c02_rules():
+    return [
+        lambda prog, tier: cert.run(prog, want=("INF",)),
+        lambda prog, tier: mark.run(prog, which=("QSexact_infeasible_test",)),
+        lambda prog, tier: optstore.run(prog),
+        lambda prog, tier: exact.run(prog, cert_scopes(prog, "INF")),
+    ]
+
+
+CERT_NOTE = ("trusted: clang 14 front end and export; the typestate abstraction (value classes of rval/__EGrval__ temporaries, "
+             "*status in {OPT, INF, OTHER}, certificate state); loop counters untracked (adds paths only); allocation-failure "
+             "edges excluded (frozen table in sa/rules/mark.py); calls through status pointer havoc the status")
+
 PROPS = {
+    "C01": {
+        "rules": c01_rules(),
+        "technique": "path-sensitive typestate dataflow (set-of-tuples, all CFG paths) on QSexact_solver / QSexact_optimal_test over "
+                     "clang::CFG; who-may-publish ownership rule; lossy-conversion sink census in call-graph scopes",
+        "explanation": "Decides the plumbing clause of C01: on every path of QSexact_solver that returns 0 with *status == OPTIMAL the exact "
+                       "optimality test returned true on the caller's problem and exactly the tested vectors were handed over (R-CERT, "
+                       "R-OUTCOPY); the test returns true only through its success marker, which no failing path reaches, and fills the "
+                       "solution cache on no failing path (R-MARK); OPTIMAL is stored into the problem/cache only by the owner functions "
+                       "(R-OPTSTORE); certificate and accessor code performs no lossy number conversion outside log arguments (R-EXACT).",
+        "level_text": "All-paths structural guarantee for the certification plumbing (a necessary condition of C01): any code change that lets "
+                      "OPTIMAL escape without test+hand-over, lets a failed check fall through, publishes OPTIMAL elsewhere, or slips a "
+                      "double conversion into the certificate path is reported with a witness path. It does not decide that the arithmetic "
+                      "inside the test is sufficient.",
+        "level_note": CERT_NOTE,
+        "not_decided": "mathematical sufficiency of the comparisons inside QSexact_optimal_test; that mpq_QSopt_primal/dual end at an optimal "
+                       "vertex (only that they judge at tolerance zero - R-ZEROTOL, claimed under C12/C13)",
+    },
+    "C02": {
+        "rules": c02_rules(),
+        "technique": "path-sensitive typestate dataflow (set-of-tuples, all CFG paths) on QSexact_solver / QSexact_infeasible_test over "
+                     "clang::CFG; who-may-publish ownership rule; lossy-conversion sink census",
+        "explanation": "Same plumbing for INFEASIBLE: rv == 0 and *status == INFEASIBLE leave QSexact_solver only after "
+                       "QSexact_infeasible_test returned true on the caller's problem and infeasible_output handed over the tested "
+                       "multiplier vector; the test returns true only through its marker; no lossy conversion in the certificate code.",
+        "level_text": "All-paths structural guarantee for the Farkas-certificate plumbing (necessary condition of C02). Found a genuine defect "
+                      "on the pinned tree (feasible LP reported INFEASIBLE after ladder exhaustion; fixed in /repo b42ef0a).",
+        "level_note": CERT_NOTE,
+        "not_decided": "that the inequality on infinite bounds inside the test is the right one; that ILLsimplex_infcertificate produces a ray",
+    },
     "C20": {
         "rules": [lambda prog, tier: stdio.run(prog)],
         "technique": "call-graph effect analysis over the type-resolved AST/CFG export (clang 14 libTooling): "
